@@ -262,7 +262,7 @@ fn main() {
             }
             let q = font.glyph_mapping.index('?');
             for c in UNMAPPED {
-                if !map.contains(c) {
+                if !map.chars().any(|m| m == c) {
                     ctx.eval();
                     let got = font.glyph_mapping.index(c);
                     if got != q {
@@ -338,10 +338,11 @@ fn main() {
                 ctx.nontrivial(egmon::rng::hash_str(&t.text) ^ egmon::rng::hash_str(&fname) ^ style as u64);
             }
             // unmapped characters render the replacement glyph
-            let s: String = UNMAPPED.iter().filter(|c| !map.contains(**c)).collect();
+            let mapped: std::collections::HashSet<char> = map.chars().collect();
+            let s: String = UNMAPPED.iter().filter(|c| !mapped.contains(*c)).collect();
             let t = text_of(format!("a{}z", s), FontD::Builtin(fi), style, rng);
             let q = font.glyph_mapping.index('?');
-            let index_unm = |c: char| if map.contains(c) { font.glyph_mapping.index(c) } else { q };
+            let index_unm = |c: char| if mapped.contains(&c) { font.glyph_mapping.index(c) } else { q };
             check_line(ctx, &t, font, &fname, &index_unm, "built-in-font-unmapped");
             if ctx.wants_sample() {
                 ctx.sample(|| jobj! {"font" => fname.clone(), "style" => style as u64, "characters" => chars.len() as u64});
